@@ -182,6 +182,14 @@ fn step(st: &mut St, f: &[&str]) -> String {
             let rel = unhex(p);
             show_result(rules.check(&root.join(rel.trim_start_matches('/')))).into()
         }
+        ["gcheckignore", t, p] => {
+            // xvc's opinion about git: core/src/util/git.rs::build_gitignore = build_ignore_patterns(COMMON, root, ".gitignore")
+            let root = st.tree(t, ".gitignore");
+            let rules = build_ignore_patterns(COMMON_IGNORE_PATTERNS, &root, ".gitignore").unwrap();
+            let rel = unhex(p);
+            let abs = format!("{}/{}", root.to_string_lossy(), rel.trim_start_matches('/'));
+            show_result(rules.check(Path::new(&abs))).into()
+        }
         ["const", "common"] => hex(COMMON_IGNORE_PATTERNS),
         ["const", "xvcignore"] => hex(XVCIGNORE_INITIAL_CONTENT),
         ["const", "gitignore"] => hex(GITIGNORE_INITIAL_CONTENT),
